@@ -660,6 +660,9 @@ private:
  */
 template<typename K, size_t Epsilon, size_t EpsilonRecursive = 4, typename Floating = float>
 class MappedPGMIndex : public PGMIndex<K, Epsilon, EpsilonRecursive, Floating> {
+#ifdef PGM_INDEX_VERIF
+    friend struct ::pgm_verif_access;
+#endif
     using base = PGMIndex<K, Epsilon, EpsilonRecursive, Floating>;
     K *data;
     size_t file_bytes;
@@ -888,12 +891,19 @@ private:
  */
 template<uint8_t Dimensions, typename T, size_t Epsilon, size_t EpsilonRecursive = 4, typename Floating = float>
 class MultidimensionalPGMIndex {
+#ifdef PGM_INDEX_VERIF
+    friend struct ::pgm_verif_access;
+#endif
     std::vector<T> data;
     PGMIndex<T, Epsilon, EpsilonRecursive, Floating> pgm;
 
     using morton = mortonnd::MortonNDBmi<Dimensions, T>;
     static constexpr auto selector = mortonnd::BuildSelector<morton::FieldBits>(Dimensions);
+#if defined(PGM_INDEX_VERIF) && defined(PGM_INDEX_VERIF_MISS_THRESHOLD)
+    static constexpr auto miss_threshold = PGM_INDEX_VERIF_MISS_THRESHOLD;
+#else
     static constexpr auto miss_threshold = 64;
+#endif
 
     class RangeIterator;
     friend class RangeIterator;
